@@ -2,9 +2,9 @@
 spec/Simulator.tla; projection of results onto the specification's state; closed-form flow evaluation.
 
 Units: the specification counts time in integer ticks plus "epsilons" (just after) and parameter values in
-integer units.  A Rendering fixes what they are in model time: SMALL (tick 0.5, epsilon 2^-20, unit 1/64: every
-float exact) and LARGE (tick 600, epsilon 1e-3, unit 1/76800: the same k*dt per tick, so the closed form stays
-well-conditioned, but absolute times of thousands where an epsilon is a relative 1e-6).  A time of the
+integer units.  A Rendering fixes what they are in model time: SMALL (tick 0.5, epsilon 2^-9, unit 2^-6) and LARGE
+(tick 512, epsilon 2^-9 ~ 2 ms, unit 2^-16: the same k*dt per tick, so the closed form stays well-conditioned, but
+absolute times of thousands where an epsilon is a relative 1e-6); every float is exact in both.  A time of the
 specification is {"b": base, "o": ticks, "e": epsilons}: base 0 is model time zero, base j > 0 is the time stamp
 of the j-th steady-state point (bound when the real call returns it).  Recorded traces write a time as the single
 integer 1000 * ticks + epsilons.
@@ -26,8 +26,10 @@ class Rendering:
     ps: float    # parameter value per unit
 
 
-SMALL = Rendering("small", 0.5, 2.0 ** -20, 1.0 / 64.0)
-LARGE = Rendering("large", 600.0, 1e-3, 1.0 / 76800.0)
+# every number is dyadic AND a whole number of nanoseconds (protocol boundaries go through pandas Timedeltas):
+# 2^-9 s = 1 953 125 ns.  At t >= 512 an epsilon is within numpy.isclose's default tolerance (1e-8 + 1e-5 t).
+SMALL = Rendering("small", 0.5, 2.0 ** -9, 2.0 ** -6)
+LARGE = Rendering("large", 512.0, 2.0 ** -9, 2.0 ** -16)
 RENDERINGS = {"small": SMALL, "large": LARGE}
 TS = SMALL.ts     # (kept for callers that only know the exact rendering)
 PS = SMALL.ps
@@ -35,6 +37,8 @@ X0 = 4.0          # initial value of x
 P0 = {"kin": 128, "kk": 64}
 REL = 1e-6        # DESIGN.md section 4, rule 3: after an ODE solve
 ABS = 1e-9
+FRAGILE_BELOW = 1e-2   # |x| below this: 1e-6 * |x| < integrator atol; such rows are judged at FRAGILE_ABS and counted
+FRAGILE_ABS = 1e-7
 SS_REL = 1e-4     # the steady-state point itself: accuracy of the steady state is C15's subject
 
 
@@ -235,6 +239,11 @@ def compare(run: Run, pst: dict, obs, stats: dict | None = None) -> dict | None:
             e = flow(kin, k, tv - t0, x)
             err = abs(e - xv)
             tol = ABS + (SS_REL if loose else REL) * max(abs(e), abs(xv))
+            if max(abs(e), abs(xv)) < FRAGILE_BELOW:
+                # fragile: the relative budget is below the integrator's own absolute tolerance (1e-8)
+                tol = FRAGILE_ABS
+                if stats is not None:
+                    stats["fragile"] = stats.get("fragile", 0) + 1
             if stats is not None:
                 stats["n"] = stats.get("n", 0) + 1
                 stats["worst"] = max(stats.get("worst", 0.0), err / tol)
@@ -307,14 +316,14 @@ def replay_history(hist_steps: list, *, views_at_end: bool = True, r: Rendering 
 
 
 def replay_renderings(hist_steps: list) -> tuple[dict | None, dict]:
-    """Exact rendering always; histories with an epsilon point (and no steady-state run, whose search length
-    depends on the time scale) also at large absolute times."""
-    bad, stats = replay_history(hist_steps)
-    if bad is None and has_eps(hist_steps) and all(s["op"]["k"] != "ss" for s in hist_steps):
-        bad, st2 = replay_history(hist_steps, r=LARGE)
-        stats = {"n": stats.get("n", 0) + st2.get("n", 0), "worst": max(stats.get("worst", 0.0), st2.get("worst", 0.0)),
-                 "large": 1}
-    return bad, stats
+    """Both renderings are exact.  Histories with an epsilon point (and no steady-state run, whose search length
+    depends on the time scale) are replayed at large absolute times, where an epsilon is a relative 1e-6; the
+    others in the small rendering."""
+    if has_eps(hist_steps) and all(s["op"]["k"] != "ss" for s in hist_steps):
+        bad, stats = replay_history(hist_steps, r=LARGE)
+        stats["large"] = 1
+        return bad, stats
+    return replay_history(hist_steps)
 
 
 # ---- shapes of failing histories (keys of known findings) ---------------------------------------------------
